@@ -11,7 +11,7 @@ cmd="$1"
 if [ -n "$FAKE_PER_HOST" ]; then FAKE_REMOTE_ROOT="$FAKE_REMOTE_ROOT-$host"; mkdir -p "$FAKE_REMOTE_ROOT"; fi
 cmd="${cmd//\/var\/tmp/$FAKE_REMOTE_ROOT}"
 printf 'ssh\t%s\t%s\n' "$host" "$(printf '%s' "$1" | tr '\n' ' ')" >> "$FAKE_LOG"
-if [ -n "$FAKE_RELAY_ORDER$FAKE_CUT$FAKE_KEY_LOG" ] && [[ "$cmd" == *--doer* ]]; then exec python3 "$(dirname "$0")/relay.py" "$cmd"; fi
+if [ -n "$FAKE_RELAY_ORDER$FAKE_CUT$FAKE_KEY_LOG$FAKE_PAUSE" ] && [[ "$cmd" == *--doer* ]]; then exec python3 "$(dirname "$0")/relay.py" "$cmd"; fi
 exec /bin/bash -c "$cmd"
 '''
 RELAY = r'''#!/usr/bin/env python3
@@ -67,7 +67,7 @@ def start_proxy(real_port):
     threading.Thread(target=serve, daemon=True).start()
     return ls.getsockname()[1]
 KEYLOG = os.environ.get('FAKE_KEY_LOG')
-p = subprocess.Popen(['/bin/bash', '-c', sys.argv[1]], stdout=subprocess.PIPE, stderr=subprocess.PIPE, stdin=subprocess.PIPE if KEYLOG else None)
+p = subprocess.Popen(['/bin/bash', '-c', sys.argv[1]], stdout=subprocess.PIPE, stderr=subprocess.PIPE, stdin=subprocess.PIPE if KEYLOG else None, start_new_session=bool(os.environ.get('FAKE_PAUSE')))
 if KEYLOG:
     # what the boss writes to this doer's stdin: the first line is the session key; it is recorded and passed on
     def feed():
@@ -113,11 +113,28 @@ def next_line(k, want):
         if (want == 'S' and is_s) or (want == 'C' and is_c):
             return line
         emit(k, line)
+# $FAKE_PAUSE = "<seconds>": the remote side freezes (SIGSTOP to the doer's process group: an unresponsive machine, a disk that spins up,
+# a user who is slow to answer on the other side) just before its "waiting for connection" line is passed on - the doer sits in accept, the
+# kernel completes the boss's connect, the boss's first command stays unanswered - and goes on after that many seconds (SIGCONT)
+frozen = [False]
+def freeze_once():
+    if not os.environ.get('FAKE_PAUSE') or frozen[0]: return
+    frozen[0] = True
+    import signal
+    try: os.killpg(p.pid, signal.SIGSTOP)
+    except OSError: return
+    open(os.environ.get('FAKE_PAUSE_MARK', '/dev/null'), 'w').write('stopped')
+    def thaw():
+        time.sleep(float(os.environ['FAKE_PAUSE']))
+        try: os.killpg(p.pid, signal.SIGCONT)
+        except OSError: pass
+    threading.Thread(target=thaw, daemon=True).start()
 for item in order:
     if item == 'n': emit('e', b"Warning: Permanently added 'localhost' (ED25519) to the list of known hosts.\n"); continue
     if item == 'N': emit('o', b'Last login: Sat Sep 26 12:00:00 2026 from 127.0.0.1\n'); continue
     line = next_line(item[1], item[0])
     if line is None: break
+    if item[0] == 'C': freeze_once()
     if CUT and item[0] == 'C':
         m = re.match(rb'(Waiting for incoming network connection on port )(\d+)', line)
         if m:
